@@ -173,6 +173,8 @@ fn walk(e: &E, f: &mut dyn FnMut(&E)) { f(e); match e { E::Arr(es) => es.iter().
 struct G<'r> { r: &'r mut R, pid: u64, in_comp: bool }
 impl<'r> G<'r> {
     fn leaf(&mut self, t: T) -> E { let r = &mut *self.r; match t {
+        // now and then the extremes of the integer range and floats just outside it
+        T::Num if r.p(4) => E::Var(["big", "nbig", "hf", "nhf"][r.b(4) as usize].into()),
         T::Num => match r.b(8) { 0 => E::Var("n".into()), 1 => E::Var("f".into()), 2 => E::Lit(V::Float([0.5, 2.0, -1.5, 0.0][r.b(4) as usize])), 3 => { self.pid += 1; E::Probe(self.pid, V::Int(r.b(4) as i128)) } 4 => E::Attr(Box::new(E::Var("m".into())), "n".into(), false), 5 => E::Lit(V::Int(-(r.b(3) as i128))), _ => E::Lit(V::Int(r.b(5) as i128)) },
         T::Str => match r.b(6) { 0 => E::Var("s".into()), 1 => E::Attr(Box::new(E::Var("m".into())), "s".into(), false), 2 => { self.pid += 1; E::Probe(self.pid, V::Str("p".into())) } 3 => E::Lit(V::Str("".into())), _ => E::Lit(V::Str(["a", "b", "ab", "é", "a\"b", "it's", "b\\s", "l\nb", "t\tb", "q`t", "sl/ash", "c\rd"][r.b(12) as usize].into())) },
         T::Bool => match r.b(5) { 0 => E::Var("t".into()), 1 => E::Lit(V::Bool(false)), 2 => { self.pid += 1; E::Probe(self.pid, V::Bool(r.b(2) == 0)) } 3 => E::Lit(V::None), _ => E::Lit(V::Bool(true)) },
@@ -424,6 +426,10 @@ pub fn run(cx: &mut Cx) {
         ("s".into(), V::Str("hey".into())),
         ("t".into(), V::Bool(true)),
         ("nn".into(), V::None),
+        ("big".into(), V::Int(i128::MAX)),
+        ("nbig".into(), V::Int(i128::MIN)),
+        ("hf".into(), V::Float(1.7014118346046923e38)),
+        ("nhf".into(), V::Float(-3.402823669209385e38)),
         ("mu".into(), V::Map(vec![(K::S("k".into()), V::Undef), (K::S("j".into()), V::Int(1))])),
         ("xs".into(), V::Arr(vec![V::Int(5), V::Str("x".into()), V::None, V::Arr(vec![V::Int(1)])])),
         ("m".into(), V::Map(vec![(K::S("n".into()), V::Int(7)), (K::S("s".into()), V::Str("ms".into())), (K::S("xs".into()), V::Arr(vec![V::Int(0), V::Int(1)])), (K::S("a".into()), V::Map(vec![(K::S("b".into()), V::Int(1))])), (K::S("nn".into()), V::None)])),
@@ -494,7 +500,7 @@ pub fn run(cx: &mut Cx) {
         for c in &cells {
             cx.cell(format!("{c}|{}", if expected.is_ok() { "value" } else { "error" }));
         }
-        let replay = |src: &str| json!({"source": src, "tree": format!("{e:?}"), "environment": "n=3 f=2.5 s=\"hey\" t=true nn=none xs=[5,\"x\",none,[1]] m={n:7,s:\"ms\",xs:[0,1],a:{b:1},nn:none}; u unbound"});
+        let replay = |src: &str| json!({"source": src, "tree": format!("{e:?}"), "environment": "n=3 f=2.5 big=i128::MAX nbig=i128::MIN hf=2^127 (float) nhf=-2^128 (float) s=\"hey\" t=true nn=none xs=[5,\"x\",none,[1]] m={n:7,s:\"ms\",xs:[0,1],a:{b:1},nn:none}; u unbound"});
         // ---- oracle 1: parenthesisation metamorphism (no model involved)
         if results.len() >= 2 {
             let (a, b) = (&results[0], &results[1]);
